@@ -142,6 +142,10 @@ func SignJWT(ctx context.Context, key crypto.Signer, alg jwa.SignatureAlgorithm,
 	if err != nil {
 		return "", fmt.Errorf("invalid JWT headers: %w", err)
 	}
+	if jwkHeaderContainsPrivateKey(hdr) {
+		// same protection as in SignJWS: never emit private key material in the (public) JWT headers.
+		return "", errors.New("refusing to sign JWT with private key in JWK header")
+	}
 
 	sig, err = jwt.Sign(t, jwt.WithKey(jwa.SignatureAlgorithm(alg.String()), key, jws.WithProtectedHeaders(hdr)))
 	token = string(sig)
@@ -363,6 +367,18 @@ func (client *Crypto) getPrivateKey(ctx context.Context, kid string) (crypto.Sig
 		return nil, "", err
 	}
 	return privateKey, kid, nil
+}
+
+// jwkHeaderContainsPrivateKey returns true if the 'jwk' header is set and contains a private key.
+// The JWX library is fine with creating a JWK for a private key (including the private exponents),
+// so the 'jwk' header has to be checked before signing: it ends up (unencrypted) in the resulting JWT/JWS.
+func jwkHeaderContainsPrivateKey(headers jws.Headers) bool {
+	if headers.JWK() == nil {
+		return false
+	}
+	// If the key is assignable to crypto.Signer (the interface implemented by all private key types) it is a private key.
+	var jwkAsPrivateKey crypto.Signer
+	return headers.JWK().Raw(&jwkAsPrivateKey) == nil
 }
 
 func convertHeaders(headers map[string]interface{}) (jws.Headers, error) {
